@@ -124,8 +124,14 @@ func c18Decoder(c *Ctx) *ssa.Function {
 	}
 	vb := ana.NewBuilder(c.P, vf)
 	var dec *ssa.Function
-	for _, ce := range edgesMatching(vb, "bin<==>(ext#1(call<*>(p0)), nil)") {
-		dec = calleeOf(ce.Lit.Arg(0))
+	// the decoder call may sit in Verify or in a helper that decodes and validates the key
+	for _, ce := range deepEdges(c, vb) {
+		if _, ok := ana.Match("raw:bin<==>(ext#1(call<*>(p0)), nil)", ce.Lit); !ok {
+			continue
+		}
+		if h := calleeOf(ce.Lit.Arg(0)); h != nil && h.Signature.Results().Len() == 2 && strings.HasSuffix(h.Signature.Results().At(0).Type().String(), "edwards25519.Point") {
+			dec = h
+		}
 	}
 	if dec == nil {
 		r.Undec("C18.canonical-decoder.anchor", c.P.Pos(vf.Pos()), "Verify does not decode publicKey through a repository decoder")
@@ -309,18 +315,28 @@ func c18Verify(c *Ctx, dec *ssa.Function) {
 	var chalTerm *ana.Term
 	for _, g := range gates {
 		acc := edgesMatching(b, g.acc)
-		rejects = append(rejects, plainEdges(edgesMatching(b, g.rej))...)
 		for _, rc := range trues {
 			r.Check(len(acc) > 0 && mustPass(fn, rc.Block, plainEdges(acc)), "C18.verify-gates."+g.name, c.ipos(rc.Ret), "`return true` passes the %s gate", g.name)
 		}
 		if g.name == "key-prime-order" && len(acc) > 0 {
-			validateFn = calleeOf(acc[0].Lit)
+			// the routine applied to the decoded key (in Verify or in the helper that decodes and validates)
+			for _, ce := range deepEdges(c, b) {
+				if _, ok := ana.Match("raw:call<*>(ext#0(call<*>(p0)))", ce.Lit); ok && dec != nil && calleeOf(ce.Lit.Arg(0)) == dec {
+					validateFn = calleeOf(ce.Lit)
+				}
+			}
 		}
 		if g.name == "challenge-equal" && len(acc) > 0 {
 			bd, _ := ana.MatchX(c.P, g.acc, acc[0].Lit)
 			chalTerm = bd["$c"]
 		}
 	}
+	// the negations of the gates, in Verify or as the reasons for which a helper it tests reports failure
+	var rejPats []string
+	for _, g := range gates {
+		rejPats = append(rejPats, g.rej)
+	}
+	rejects = c.rejectEdges(b, rejPats...)
 	avoid := ana.ReachableAvoiding(fn, rejects)
 	for _, rc := range falses {
 		r.Check(!avoid[rc.Block], "C18.verify-gates.reject-closed", c.ipos(rc.Ret), "`return false` reachable only through the negation of one of the four gates")
